@@ -151,6 +151,10 @@ pub struct BuildOpts {
     pub threads: usize,
     /// cancel callback answers true from its n-th call (0-based count >= n) on; None = never
     pub cancel_at: Option<u64>,
+    /// `build` is called twice in a row on the same `ArroyBuilder` value, in the same transaction (the options were
+    /// given once; the second call has nothing pending). Ignored when the build is to be cancelled.
+    #[serde(default)]
+    pub twice: bool,
 }
 
 #[derive(Clone, Debug, PartialEq, Eq, Hash, Serialize, Deserialize)]
@@ -195,8 +199,14 @@ impl HistorySpec {
             s += &format!("+{} -{} {}", adds, dels, other);
             for b in &r.builds {
                 s += &format!(
-                    "build(ix{} t={:?} sa={:?} mem={:?} thr={} c={:?}) ",
-                    b.ix, b.n_trees, b.split_after, b.avail_mem, b.threads, b.cancel_at
+                    "build{}(ix{} t={:?} sa={:?} mem={:?} thr={} c={:?}) ",
+                    if b.twice { "x2" } else { "" },
+                    b.ix,
+                    b.n_trees,
+                    b.split_after,
+                    b.avail_mem,
+                    b.threads,
+                    b.cancel_at
                 );
             }
             s += if r.commit { "commit}" } else { "abort}" };
